@@ -344,6 +344,13 @@ def run_suite(suite, tier, seed, tag, replay_in=None, extra_env=None):
         unpred = [o[:-2] for o in ofails if o.endswith(":U")]
         pred = [o[:-2] for o in ofails if o.endswith(":P")]
         if unpred:
+            # end-to-end traces carry the interface events of a run that needs attention as
+            # comment lines "# <scenario-id> ..." : keep them with the flagged line
+            toks = line.split(" ")
+            if len(toks) > 1 and toks[0] == "E":
+                evs = [l for l in lines if l.startswith("# %s " % toks[1])]
+                if evs:
+                    res.extra.setdefault("events", {})[k] = evs[:400]
             res.oracle_U.append((k, line, unpred))
         for o in pred:
             res.oracle_P.setdefault(o, []).append((k, line))
